@@ -4,6 +4,7 @@ import sys
 sys.path.insert(0, os.path.dirname(os.path.abspath(__file__)))
 import core  # noqa: E402
 import groups  # noqa: E402  (kernel III, identifier part: renames, escape_ID, bounds after a rename; coq/theories/Groups)
+import extras  # noqa: E402  (kernel IV: user constraints / variables, solver switch, merge; coq/theories/Extras)
 
 if __name__ == "__main__":
     sys.exit(core.main(
@@ -17,5 +18,8 @@ if __name__ == "__main__":
         manifest_trusted=["optlang / GLPK container semantics are modelled (Core/Model.v 'solver primitives'), validated by "
                           "reading the raw problem back after every step",
                           "groups kernel (identifier part): the solver is observed through the names (optlang and raw GLPK), "
-                          "see harness/groups.py observe"],
-        extra=[groups.run_c01], extra_targets=groups.EXTRA_TARGETS))
+                          "see harness/groups.py observe",
+                          "extras kernel: the ledger of what the user added is specification state of the model "
+                          "(Extras/Model.v); which of the repaired / unrepaired variants of the merge code paths is under "
+                          "test is decided by probes on the real implementation (harness/extras.py probe_variant)"],
+        extra=[groups.run_c01, extras.run_c01], extra_targets=groups.EXTRA_TARGETS + extras.EXTRA_TARGETS))
